@@ -147,6 +147,7 @@ def parseProbe (s : String) : Option (Text × Probe) :=
       if k == "t" then pure (d, .text t)
       else if k == "o" then pure (d, .osError t)
       else if k == "u" then pure (d, .unicodeError t)
+      else if k == "v" then pure (d, .valueError t)
       else if k == "x" then pure (d, .otherError (String.ofList t))
       else none
     | _ => none
